@@ -683,6 +683,7 @@ pub fn gen_string(rg: &mut Rg, cfg: &GenCfg) -> EnumSpec {
                 if kind == Kind::Tuple && nf == 1 && v.fields[0].ty.dw().is_some() && rg.chance(1, 3) {
                     attrs.push(VAttr::DefaultWith);
                 }
+                inert_tuple_field_attrs(&mut v, kind);
                 if kind == Kind::Named {
                     for f in v.fields.iter_mut() {
                         if f.ty.dw().is_some() && rg.chance(1, 3) {
@@ -1014,6 +1015,10 @@ pub fn gen_iter(rg: &mut Rg, cfg: &IterCfg) -> EnumSpec {
             if kind == Kind::Tuple && nf == 1 && v.fields[0].ty.dw().is_some() && rg.chance(1, 5) {
                 attrs.push(VAttr::DefaultWith);
             }
+        }
+        // on disabled variants too (seeded change C04-28 reads the field's attributes instead of the variant's)
+        inert_tuple_field_attrs(&mut v, kind);
+        if (mask >> vi) & 1 == 0 {
             if kind == Kind::Named {
                 for f in v.fields.iter_mut() {
                     if f.ty.dw().is_some() && rg.chance(1, 6) {
@@ -1788,6 +1793,21 @@ pub fn gen_disc(rg: &mut Rg) -> EnumSpec {
     e
 }
 
+/// A `#[strum(default_with = "..")]` on the field of a *tuple* variant is legal source that no derive reads (the
+/// field-level form belongs to named fields). Chosen by a hash of the identifier, not by the generator's stream,
+/// so that the streams of all other choices stay as they were.
+fn inert_tuple_field_attrs(v: &mut VariantSpec, kind: Kind) {
+    if kind != Kind::Tuple {
+        return;
+    }
+    let h = crate::fnv(v.ident.as_bytes());
+    for (fi, f) in v.fields.iter_mut().enumerate() {
+        if f.ty.dw().is_some() && f.ty != FieldTy::StaticStr && (h >> (fi * 3)) % 4 == 0 {
+            f.default_with = true;
+        }
+    }
+}
+
 /// C19: restrict a spec to `core`-only payload types, plain ASCII literals and ordinary identifiers.
 pub fn coreify(e: &mut EnumSpec) {
     for (vi, v) in e.variants.iter_mut().enumerate() {
@@ -1979,7 +1999,7 @@ pub fn plainify(e: &mut EnumSpec) -> bool {
             });
         }
         v.groups.retain(|g| !g.is_empty());
-        if !has_enum_string || is_default || disabled {
+        if !has_enum_string || is_default || disabled || v.kind == Kind::Tuple {
             for f in v.fields.iter_mut() {
                 f.default_with = false;
             }
